@@ -8,13 +8,8 @@ open BytomModel.TxPool
 
 theorem mem_requireParents (c : Cfg) (s : Pool) (tx : Tx) (x : Out) (h : x ∈ requireParents c s tx) :
     x ∈ tx.spent := by
-  unfold requireParents at h
-  split at h
-  · cases h
-  · rename_i l hl
-    obtain ⟨_, _, e⟩ := List.mem_map.mp h
-    rw [← e]
-    exact List.mem_of_getLast? hl
+  unfold requireParents missing at h
+  exact (List.mem_filter.mp h).1
 
 /-! ### addOrphan -/
 
